@@ -36,16 +36,17 @@ where
 
       source.inner_subscribe(sctl.new_observer(
         move |_, x| {
-          {
+          let emit = {
             let mut r = result_next.write().unwrap();
             if let Some(xx) = &*r {
               *r = Some(f.call((xx.clone(), x)));
             } else {
               *r = Some(x);
             }
-          }
-          if let Some(x) = &*result_next.read().unwrap() {
-            sctl_next.sink_next(x.clone());
+            r.clone()
+          };
+          if let Some(x) = emit {
+            sctl_next.sink_next(x);
           }
         },
         move |_, e| {
